@@ -291,9 +291,10 @@ Lemma handle_cases (nd : node) (s : state) (c : conn) (r : req) (R : state -> Pr
   (forall sc, r = RAct sc false -> act_error nd sc = None ->
      R (enter_groups (set_dlock (register s c sc) (Some c)) c sc (snapshot_groups nd sc))) ->
   (r = RClose -> R (set_cpc s c (CSendR (RpErr 0)))) ->
+  (r = RBogus -> R (set_cpc s c (CSendR (RpErr 0)))) ->
   R (handle nd s c r).
 Proof.
-  intros H1 H2 H3 H4 H5 H6 H8. destruct r as [sc d | sc d | |]; simpl; auto.
+  intros H1 H2 H3 H4 H5 H6 H8 H9. destruct r as [sc d | sc d | | |]; simpl; auto.
   - destruct d; [eapply H4; eauto |]. destruct (act_error nd sc) eqn:A; [eapply H5; eauto |]. apply H6; auto.
   - destruct d; [eapply H2 | eapply H3]; eauto.
 Qed.
